@@ -57,9 +57,9 @@ Proof.
   unfold agg_src. destruct op; try apply H2.
   destruct (w || negb (String.eqb (str_of_expr p) metric_name)).
   - match goal with |- context [exclude_metric_name ?x w g] => destruct (fpr_exclude_metric_name x w g) as [E1 [E2 _]] end.
-    rewrite E1, E2. cbn [s_always s_cond guarantee_label include_label set_excluded set_included set_guaranteed set_operation].
+    rewrite E1, E2. destruct (lit_of p); cbn [s_always s_cond guarantee_label include_label set_excluded set_included set_guaranteed set_operation];
     split; assumption.
-  - cbn [s_always s_cond guarantee_label include_label set_excluded set_included set_guaranteed set_operation]. split; assumption.
+  - destruct (lit_of p); cbn [s_always s_cond guarantee_label include_label set_excluded set_included set_guaranteed set_operation]; split; assumption.
 Qed.
 
 Lemma sel_src_always ms : s_always (sel_src ms) = false.
